@@ -66,6 +66,13 @@ func drawHistCase(t *rapid.T, mapFreeOnly bool) histCase {
 	if thorough() {
 		n = gen.UniformRange(t, "nops", 1, 60)
 	}
+	if !mapFreeOnly && gen.Uniform(t, "hugeBlocks", 150) == 0 {
+		// a block size above 1 MiB with enough data to fill it more than once
+		c.BlockSize = 1<<20 + 4096*gen.Uniform(t, "hugeExtra", 64)
+		c.Cat = "BigStrings"
+		ts = cat.Get(c.Cat).Spec
+		n = gen.UniformRange(t, "nopsHuge", 24, 40)
+	}
 	if c.BlockSize >= 4000 && c.BlockSize < 5000 {
 		// enough large records to fill several blocks of about 4 KiB (a common buffer size)
 		c.Cat = "BigStrings"
@@ -75,6 +82,13 @@ func drawHistCase(t *rapid.T, mapFreeOnly bool) histCase {
 	for i := 0; i < n; i++ {
 		if gen.Uniform(t, "op", 4) == 0 {
 			c.Ops = append(c.Ops, histOp{Flush: true})
+		} else if c.BlockSize >= 1<<20 && c.BlockSize < 1<<22 {
+			// records of about 100 KiB
+			b := make([]byte, 90000+1000*gen.Uniform(t, "hugeLen", 40))
+			for j := range b {
+				b[j] = byte('a' + (i*17+j*3+j/509)%26)
+			}
+			c.Ops = append(c.Ops, histOp{Value: spec.ValueSpec{Fields: []spec.ValueSpec{{S: []byte("k")}, {S: b}}}})
 		} else if c.BlockSize >= 4000 && c.BlockSize < 5000 {
 			// records of 100-800 bytes
 			mk := func(label string) spec.ValueSpec {
@@ -98,7 +112,7 @@ func drawHistCase(t *rapid.T, mapFreeOnly bool) histCase {
 // C09
 
 const c09Rule = "rapid draws of histories over the real generic Encoder[T] (catalogue types incl. a zero-byte record and one with large strings): 1-30 (thorough 1-60) steps of encode(value)/flush, " +
-	"block size in {0,1,7,64,250,300,1000,4070,4090,1e6}, all codecs; model = records pending since the last block; after EVERY call the bytes newly appended to the sink are parsed by the reference reader: " +
+	"block size in {0,1,7,64,250,300,1000,4070,4090,1e6, rarely 1 MiB + k*4 KiB with ~100 KiB records}, all codecs; model = records pending since the last block; after EVERY call the bytes newly appended to the sink are parsed by the reference reader: " +
 	"nothing, or exactly one well-formed block whose count = |pending|, whose payload decodes (exact fit) to the pending records in order and whose sync is the header's; never count 0; " +
 	"a block must appear in the call in which the cumulative encoded size (from the decoded payload spans) reaches the block size and in every flush with records pending; flush twice appends nothing; " +
 	"non-trivial = history with >=1 size-triggered block, >=1 flush with pending records and >=1 flush with none; distinct by case JSON hash"
@@ -315,7 +329,7 @@ func TestC09(t *testing.T) {
 // C16
 
 const c16Rule = "rapid draws of histories (as C09, map-free types so that two runs produce identical payload bytes; plus FileWriter-level histories WriteHeader, WriteBlock x n) and, for each history, " +
-	"EVERY write index k = 0..W-1 of the fault-free run as a fault point: the k-th Write accepts a drawn j in [0,len] bytes and returns a sentinel error (alternately a sticky failure, after which every write fails, and a transient one, after which writes succeed again); " +
+	"EVERY write index k = 0..W-1 of the fault-free run as a fault point: the k-th Write accepts a drawn j in [0,len] bytes and returns a sentinel error (alternately a sticky failure, after which every write fails, and a transient one, after which writes succeed again; every other history writes to a destination that also implements io.ByteWriter); " +
 	"oracle: the call that issued write k returns an error with errors.Is(err, sentinel), no earlier call failed, no panic, and the bytes accepted are a prefix of the fault-free output " +
 	"with its sync markers (positions known from the reference parser) replaced by the faulty run's marker; " +
 	"evaluations = fault points; non-trivial = k > 0 with a partial acceptance in a history with >= 2 blocks; distinct by (history hash, k)"
@@ -355,6 +369,16 @@ func (f *faultWriter) Write(p []byte) (int, error) {
 		return n, errWriteSentinel
 	}
 	return f.buf.Write(p)
+}
+
+// faultByteWriter is a faultWriter that also implements io.ByteWriter, as
+// bufio.Writer and bytes.Buffer do: a single byte handed over through WriteByte
+// is a write like any other and may fail.
+type faultByteWriter struct{ *faultWriter }
+
+func (f faultByteWriter) WriteByte(b byte) error {
+	_, err := f.faultWriter.Write([]byte{b})
+	return err
 }
 
 type callResult struct {
@@ -412,8 +436,16 @@ func runHistory(c histCase, w io.Writer, fw *faultWriter) (calls []callResult, w
 }
 
 func runC16(c histCase, col *stats.Collector) (bool, []string, error) {
+	// every other history writes to a destination that is also an io.ByteWriter
+	byteWriter := (len(c.Ops)+len(c.Payloads)+len(c.J))%2 == 1
+	dest := func(fw *faultWriter) io.Writer {
+		if byteWriter {
+			return faultByteWriter{fw}
+		}
+		return fw
+	}
 	clean := &faultWriter{failAt: -1}
-	calls, _, perr := runHistory(c, clean, clean)
+	calls, _, perr := runHistory(c, dest(clean), clean)
 	if perr != nil {
 		return false, nil, fmt.Errorf("fault-free run: %v", perr)
 	}
@@ -443,7 +475,7 @@ func runC16(c histCase, col *stats.Collector) (bool, []string, error) {
 			permil = c.J[k%len(c.J)]
 		}
 		fw := &faultWriter{failAt: k, permil: permil, sticky: (k+len(c.Ops)+len(c.Payloads))%2 == 0}
-		calls, writesAfter, perr := runHistory(c, fw, fw)
+		calls, writesAfter, perr := runHistory(c, dest(fw), fw)
 		fail := func(format string, args ...interface{}) (bool, []string, error) {
 			return true, labels, fmt.Errorf("fault at write %d of %d (accepting %d permille): %s", k, W, permil, fmt.Sprintf(format, args...))
 		}
